@@ -247,14 +247,15 @@ Section TwoFragments.
       bonded C ax lx = true /\ bonded C ay ly = true /\ bonded C ax ay = true /\ is_two (result_order C ax ay) = true /\
       (v = ez_tuple (map_get m (phi C lx)) (map_get m (phi C ax)) (map_get m (phi C ay)) (map_get m (phi C ly)) c \/
        v = ez_tuple (map_get m (phi C ly)) (map_get m (phi C ay)) (map_get m (phi C ax)) (map_get m (phi C lx)) c) /\
+      phi C ax < phi C ay /\
       c = class_val (if wb C ly ay then negb (geom C lx ax ay ly tx ty) else geom C lx ax ay ly tx ty).
   Proof.
     intros H tok. pose proof (string_step o H) as St.
     destruct (returned_class_geom C W fd two_templates_ok two_wf_dict (next_meta mol) HB Hat Hnum tok two_tok mol o eq_refl St)
       as (m & Em & _ & _ & Hall).
     exists m. split; [exact Em|]. intros k v Hn.
-    destruct (Hall k v Hn) as (lx & ax & ay & ly & tx & ty & c & H1 & H2 & H3 & H4 & H5 & H6 & H7 & H8 & H9 & H10 & H11 & H12 & _ & _ & _ & _ & H13 & H14).
-    exists lx, ax, ay, ly, tx, ty, c. repeat (split; [assumption|]). exact H14.
+    destruct (Hall k v Hn) as (lx & ax & ay & ly & tx & ty & c & H1 & H2 & H3 & H4 & H5 & H6 & H7 & H8 & H9 & H10 & H11 & H12 & _ & _ & _ & _ & H13 & H14 & H15).
+    exists lx, ax, ay, ly, tx, ty, c. repeat (split; [assumption|]). exact H15.
   Qed.
 End TwoFragments.
 
